@@ -324,12 +324,13 @@ def measuredDebugO0 : Kind → Nat
   | .superCall => 13600
 
 /-- the same in the release profile, upper bounds (block calls through `State::render_block`
-    are the largest, up to 4095 bytes); 5100 bytes before the first activation -/
+    are the largest, 4122 bytes measured on the build without hooks); 5100 bytes before the first
+    activation -/
 def measuredRelease : Kind → Nat
-  | .macroCall => 4700
-  | .callerCall => 4700
-  | .includeTpl => 3300
-  | .blockCall => 4096
+  | .macroCall => 4900
+  | .callerCall => 4900
+  | .includeTpl => 3400
+  | .blockCall => 4130
   | .superCall => 3700
 
 theorem stack_le_weighted (P : Kind → Prop) (bytes : Kind → Nat) (ρ : Nat)
@@ -390,9 +391,9 @@ theorem C11_partial (P : Kind → Prop) (bytes : Kind → Nat) (root ρ : Nat)
   have h3 : ρ * wsum s.acts ≤ ρ * maxRecursionEnv := Nat.mul_le_mul_left ρ (by omega)
   omega
 
-/-- release profile: every kind fits (ρ = 4096 bytes per depth unit; 44 KB to spare) -/
+/-- release profile: every kind fits (ρ = 4130 bytes per depth unit; 27 KB to spare) -/
 example : C11_stack_full measuredRelease 5100 := fun L hL s hs =>
-  C11_partial (fun _ => True) measuredRelease 5100 4096 (by intro k _; cases k <;> decide)
+  C11_partial (fun _ => True) measuredRelease 5100 4130 (by intro k _; cases k <;> decide)
     (by decide) L hL s hs (fun _ _ => trivial)
 
 /-- unoptimised debug profile: everything except block calls and `super()` fits
@@ -403,6 +404,112 @@ example : ∀ L, L ≤ maxRecursionEnv → ∀ s, Reach L s →
   C11_partial (fun k => k ≠ .blockCall ∧ k ≠ .superCall) measuredDebugO0 15300 2750
     (by intro k hk; cases k <;> first | decide | exact absurd rfl hk.1 | exact absurd rfl hk.2)
     (by decide)
+
+/-! ## A second resource: templates compiled lazily at depth
+
+A template that a loader provides is compiled by the first `include`/`import`/`extends` that
+names it — on top of the interpreter activations that are on the native stack at that moment.
+The recursive-descent parser has its own guard (`MAX_RECURSION` of `compiler/parser.rs`,
+`maxRecursionParser` levels), counted separately from the run-time depth.  The native stack is
+therefore bounded by  root + Σ bytes(activation) + π × parse levels,  two budgets that add up. -/
+
+/-- any number of re-entries of one kind can be nested as long as their cost fits -/
+theorem reach_nest (bytes : Kind → Nat) (L : Nat) (k : Kind) :
+    ∀ n, 1 + n * cost k ≤ L → ∃ s, Reach L s ∧ s.limit = L ∧ s.cur.depth = 1 + n * cost k ∧
+      stackBytes bytes s.acts = n * bytes k := by
+  intro n
+  induction n with
+  | zero => intro _; exact ⟨init L, Reach.init, rfl, by simp [MJ.Depth.init, Ctx.depth], by simp [MJ.Depth.init, stackBytes]⟩
+  | succ n ih =>
+    intro hn
+    rw [Nat.succ_mul] at hn
+    obtain ⟨s, hr, hl, hd, hb⟩ := ih (by omega)
+    have hne : enter s k ≠ .recursionError := by
+      intro he
+      have := (enter_error_iff s k (by omega)).1 he
+      omega
+    rcases enter_ok_or_error s k with ⟨s', hs'⟩ | he
+    · obtain ⟨hl', hd', _, b, hacts, _, _⟩ := enter_ok hs'
+      refine ⟨s', Reach.step hr (e := .enter k) hs', by omega, ?_, ?_⟩
+      · rw [hd', hd, Nat.succ_mul]; omega
+      · rw [hacts]; simp only [stackBytes, hb, Nat.succ_mul]; omega
+    · exact absurd he hne
+
+/-- **partial theorem with both budgets**: for re-entry kinds `P` with at most `ρ` bytes per depth
+    unit and a parser that needs at most `π` bytes per guarded level, if
+    `root + ρ × MAX_RECURSION + π × MAX_RECURSION(parser)` fits in 2 MiB, no mixture of such
+    re-entries with a lazy compilation on top of it exceeds 2 MiB -/
+theorem C11_partial_lazy (P : Kind → Prop) (bytes : Kind → Nat) (root ρ π : Nat)
+    (hρ : ∀ k, P k → bytes k ≤ ρ * cost k)
+    (hfit : root + ρ * maxRecursionEnv + π * maxRecursionParser ≤ 2097152) :
+    ∀ L, L ≤ maxRecursionEnv → ∀ s, Reach L s → (∀ a ∈ s.acts, P a.kind) →
+      ∀ p, p ≤ maxRecursionParser → root + stackBytes bytes s.acts + π * p ≤ 2097152 := by
+  intro L hL s hs hP p hp
+  have h1 := stack_le_weighted P bytes ρ hρ s.acts hP
+  have h2 := (weighted_nesting hs).2.1
+  have h3 : ρ * wsum s.acts ≤ ρ * maxRecursionEnv := Nat.mul_le_mul_left ρ (by omega)
+  have h4 : π * p ≤ π * maxRecursionParser := Nat.mul_le_mul_left π hp
+  omega
+
+/-- release profile, macro/caller/include re-entries (ρ = 817 bytes per depth unit, parser
+    π = 1700 bytes per level): both budgets together use less than 0.7 MB -/
+example : ∀ L, L ≤ maxRecursionEnv → ∀ s, Reach L s →
+    (∀ a ∈ s.acts, a.kind ≠ .blockCall ∧ a.kind ≠ .superCall) →
+    ∀ p, p ≤ maxRecursionParser → 5100 + stackBytes measuredRelease s.acts + 1700 * p ≤ 2097152 :=
+  C11_partial_lazy (fun k => k ≠ .blockCall ∧ k ≠ .superCall) measuredRelease 5100 817 1700
+    (by intro k hk; cases k <;> first | decide | exact absurd rfl hk.1 | exact absurd rfl hk.2)
+    (by decide)
+
+/-- **the two budgets do not fit together in an unoptimised debug build** (measured lower bounds:
+    15500 bytes per macro call, 8000 bytes per guarded parser level): 83 nested macro calls — what
+    the default limit admits — and a lazily loaded template with 70 nested parentheses (140 parser
+    levels, below the parser's own limit) need more than 2 MiB.  Witness replayed every run
+    (`M:M000d 500 0 t2m`, KNOWN_FINDINGS.jsonl: lazy-parse-at-depth). -/
+theorem C11_lazy_counterexample :
+    ¬ (∀ L, L ≤ maxRecursionEnv → ∀ s, Reach L s → ∀ p, p ≤ maxRecursionParser →
+        stackBytes (fun _ => 15500) s.acts + 8000 * p ≤ 2097152) := by
+  intro h
+  obtain ⟨s, hr, _, _, hb⟩ := reach_nest (fun _ => 15500) 500 .macroCall 83 (by decide)
+  have := h 500 (by decide) s hr 140 (by decide)
+  rw [hb] at this
+  omega
+
+/-- the tie for every place of the crate that creates a `Context`/`State`, starts a top-level
+    evaluation, raises the depth or switches the execution state — each is either a *root* (a
+    fresh render: its own limit budget, nothing inherited — `Template::_eval`, `Expression::_eval`,
+    `machinery::eval`, the empty states of `new_state`/`empty_state`), a constructor, or one of the
+    four guarded re-entries of the model; a `Context` reads its limit from the environment when it
+    is created, the parser guards its own recursion -/
+def contextSiteClass : List ((String × String × String) × String) := [
+  (("environment.rs", "empty_state", "State::new_for_env"), "root:empty-state"),
+  (("expression.rs", "_eval", "vm::eval"), "root:render"),
+  (("lib.rs", "eval", "vm::eval"), "root:render"),
+  (("template.rs", "_eval", "vm::eval"), "root:render"),
+  (("template.rs", "new_state", "State::new"), "root:empty-state"),
+  (("template.rs", "new_state", "Context::new"), "root:empty-state"),
+  (("vm/context.rs", "new", "Context{}"), "constructor"),
+  (("vm/context.rs", "new_with_frame", "Context::new"), "constructor"),
+  (("vm/mod.rs", "eval", "Executor::eval"), "root:render"),
+  (("vm/mod.rs", "eval", "State::new"), "root:render"),
+  (("vm/mod.rs", "eval", "Context::new_with_frame"), "root:render"),
+  (("vm/mod.rs", "eval_macro", "Context::new"), "guarded:macro"),
+  (("vm/mod.rs", "eval_macro", "reset_with_frame"), "guarded:macro"),
+  (("vm/mod.rs", "eval_macro", "incr_depth"), "guarded:macro"),
+  (("vm/mod.rs", "eval_macro", "with_execution_state"), "guarded:macro"),
+  (("vm/mod.rs", "perform_include", "incr_depth"), "guarded:include"),
+  (("vm/mod.rs", "perform_include", "with_execution_state"), "guarded:include"),
+  (("vm/mod.rs", "perform_super", "with_execution_state"), "guarded:super"),
+  (("vm/mod.rs", "call_block", "with_execution_state"), "guarded:block"),
+  (("vm/state.rs", "new_for_env", "State::new"), "root:empty-state"),
+  (("vm/state.rs", "new_for_env", "Context::new"), "root:empty-state")]
+
+theorem context_sites_classified :
+    contextSites = contextSiteClass.map (·.1) ∧
+    (∀ e ∈ contextSiteClass, e.2 ∈ ["root:render", "root:empty-state", "constructor",
+      "guarded:macro", "guarded:include", "guarded:super", "guarded:block"]) ∧
+    contextLimitSource = "env.recursion_limit()" ∧
+    parserGuardCond = "$parser.depth > MAX_RECURSION" :=
+  ⟨rfl, by decide, rfl, rfl⟩
 
 /-- the tie to the source text of the re-entry sites: the functions of `vm/mod.rs` that call
     `eval_state`/`do_eval`/`eval_impl`, with the depth-increasing calls that precede the nested
